@@ -662,9 +662,9 @@ func (c *checkCtx) runNative(prog *Program, specs []*HarnessSpec, cases []native
 		sp := prog.pkgs[p]
 		rel := strings.TrimPrefix(strings.TrimPrefix(p, modPath), "/")
 		var sb strings.Builder
-		sb.WriteString("//go:build verif\n\npackage " + sp.Pkg.Name() + "\n\nimport (\n\t\"encoding/json\"\n\t\"fmt\"\n\t\"os\"\n\t\"testing\"\n\t\"time\"\n")
+		sb.WriteString("//go:build verif\n\npackage " + sp.Pkg.Name() + "\n\nimport (\n\t\"encoding/json\"\n\t\"fmt\"\n\t\"os\"\n\t\"runtime\"\n\t\"testing\"\n\t\"time\"\n")
 		if mode == "synctest" {
-			sb.WriteString("\t\"runtime\"\n\t\"testing/synctest\"\n")
+			sb.WriteString("\t\"testing/synctest\"\n")
 		}
 		sb.WriteString(")\n\n")
 		sb.WriteString("func verifDispatch(name string, p []int) {\n\tswitch name {\n")
@@ -716,12 +716,27 @@ func (c *checkCtx) runNative(prog *Program, specs []*HarnessSpec, cases []native
 				verifLoadCase(verifCase{Inputs: c.Inputs}, os.Stdout)
 				verifDispatch(c.Harness, c.Params)
 			}()
-			select {
-			case <-done:
-			case <-time.After(20 * time.Second):
-				fmt.Printf("VERIF-FAIL terminates\nVERIF-ENDCASE\n")
-				os.Exit(0)
+			deadline := time.After(20 * time.Second)
+			tick := time.NewTicker(50 * time.Millisecond)
+		wait:
+			for {
+				select {
+				case <-done:
+					break wait
+				case <-deadline:
+					fmt.Printf("VERIF-FAIL terminates\nVERIF-ENDCASE\n")
+					os.Exit(0)
+				case <-tick.C:
+					// a run that never ends may also allocate without bound: stop at 1 GiB
+					var ms runtime.MemStats
+					runtime.ReadMemStats(&ms)
+					if ms.HeapAlloc > 1<<30 {
+						fmt.Printf("VERIF-FAIL terminates\nVERIF-ENDCASE\n")
+						os.Exit(0)
+					}
+				}
 			}
+			tick.Stop()
 			fmt.Printf("VERIF-ENDCASE\n")
 			continue
 		}
